@@ -26,6 +26,13 @@ def Buf.apply (rw : Rune → Int) (b : Buf) : CbOp → Buf
 
 def Buf.run (rw : Rune → Int) (b : Buf) (ops : List CbOp) : Buf := ops.foldl (Buf.apply rw) b
 
+/-- one op on the tree of variant `fz` (`Tcell.currentFillBlanksZeroWidth`): only Fill differs; `fz = false` is `apply` -/
+def Buf.applyV (fz : Bool) (rw : Rune → Int) (b : Buf) : CbOp → Buf
+  | .fill r s => b.fillV fz rw r s
+  | op => b.apply rw op
+
+def Buf.runV (fz : Bool) (rw : Rune → Int) (b : Buf) (ops : List CbOp) : Buf := ops.foldl (Buf.applyV fz rw) b
+
 /-- What an observer remembers of a cell: raw rune, combining runes, style. -/
 abbrev Content := Rune × List Rune × Style
 
@@ -66,5 +73,12 @@ def runGhost (rw : Rune → Int) : Buf × Ghost → List CbOp → Buf × Ghost
   | (b, g), op :: ops =>
       let b' := b.apply rw op
       runGhost rw (b', g.step b b' op) ops
+
+/-- `runGhost` on the tree of variant `fz` -/
+def runGhostV (fz : Bool) (rw : Rune → Int) : Buf × Ghost → List CbOp → Buf × Ghost
+  | s, [] => s
+  | (b, g), op :: ops =>
+      let b' := b.applyV fz rw op
+      runGhostV fz rw (b', g.step b b' op) ops
 
 end Tcell
